@@ -1,2 +1,3 @@
 /- C11 — macrostates and reactions are (multi)sets: theorems are in Props/C11Sets.lean. -/
 import DsdVerif.Props.C11Sets
+import DsdVerif.Props.C11Full
